@@ -390,6 +390,11 @@ class C09:
                     b"}(" + nk + b"K\x01tq\x00K\x01sh\x00K\x02s.", b"}" + nk + b"q\x00\x85K\x01sh\x00\x85K\x02s.",
                     b"}" + nk + b"2K\x01sK\x02s.", b"}(" + nk + b"q\x00K\x01h\x00K\x02K\x05K\x03u.",
                     b"}" + nk + b"K\x01s" + nk + b"K\x02s."]       # last: two distinct NaN objects - two entries everywhere
+        # a key no Go map can hold right after an acceptable key of the same Go type, in one batch: an error, never a panic
+        for bad in (b"]Q", b"(I1\nI2\ntQ", b"}Q", b"]QQ"):
+            for good in (b"I1\nQ", b"Va\nQ"):
+                out += [b"}(" + good + b"N" + bad + b"Nu.", b"(" + good + b"N" + bad + b"Nd.", b"}q\x00(" + good + b"N" + bad + b"Nuh\x00.",
+                        b"}" + good + b"Ns" + bad + b"Ns.", b"}(" + good + b"NK\x02QN" + bad + b"N" + good + b"Nu."]
         for _ in range(ctx.scale(500, 10000)):
             out.append(P.ProgGen(rng, wellformed=True, colliding=0.7, maxops=rng.choice([10, 25, 40]), allow_unhashable_keys=0.02,
                                  special_calls=False).gen())
